@@ -12,7 +12,7 @@ C12 driver ops (one output line per input line):
       the model's prediction: per input `responses;consumers published closed`, joined by " | ",
       then " || ch=<channels> role=<role> paused=<b>" of the final state
   wspdec <hex>   wsp.DecodeStringRequest on the text
-  judge <rtsp|wsp> { <hangup> <METHOD> <transport-hex> <nresp> <code> <cseqOk> <sidOk> <consumers> <published> <closed> }*
+  judge <rtsp|wsp> { <hangup> <METHOD> <transport-hex> <nresp> <code> <cseqOk> <sidOk> <consumers> <published> <closed> <media> }*
       the specification's verdict on an observed dialogue
 -/
 namespace IpcHub.Drv.C12
@@ -232,8 +232,9 @@ def pObs : P Obs := do
   let cons ← pNat
   let pub ← pBool
   let cl ← pBool
+  let media ← pBool
   pure { hangup := h, method := methodOfToken m, ask := specSetupAsk tr, nresp := n, code := code, cseqOk := c,
-         sidOk := sid, consumers := cons, published := pub, closed := cl }
+         sidOk := sid, consumers := cons, published := pub, closed := cl, media := media }
 
 partial def pMany {α} (p : P α) : P (List α) := fun s =>
   match s with
